@@ -17,7 +17,7 @@ EXPLANATION = (
     "Decides: (a) File._rangeToOffsetAndSize and _contentRange are interpreted (whitelisted evaluator, no execution) for every file size 1..9 and "
     "every first/last/suffix value 0..12 and must equal the RFC 9110 oracle (offset, length) resp. 'bytes a-b/size' - this contains F25b (suffix "
     "longer than the file, fixed); (b) exception escape: _parseRangeHeader raises only ValueError, every int()/unpack is under a ValueError handler, "
-    "makeProducer catches it and its handler touches the raw header only leniently (F25a, fixed), the reversed / empty range tests are the spec's; "
+    "makeProducer catches it and its handler touches the raw header only leniently (F25a, fixed), the reversed / empty range tests are the spec's, and the parser itself is evaluated on ~330 header values (0 in every position, reversed, empty, non-numeric, lists) against an RFC 9110 oracle; _doMultipleRangeRequest is evaluated on multi-range requests with suffix/open-ended parts (request order, Content-Length, no exception); "
     "(c) response assembly: 416 exactly on the (0,0) outcome, 206 otherwise, Content-Length from the computed size with `is None` defaulting, "
     "single/multiple dispatch on len()==1, multipart Content-Length accumulates exactly the separators and part sizes that are appended, separator "
     "and final boundary formats, the value handed to MultipleRangeStaticProducer is a non-empty list of triples on every return; (d) the producers "
@@ -50,6 +50,10 @@ def check(ctx):
         _content_range(ctx)
     with ctx.section("parse"):
         _parse(ctx)
+    with ctx.section("parse-evaluated"):
+        _parse_evaluated(ctx)
+    with ctx.section("multiple-evaluated"):
+        _multiple_evaluated(ctx)
     with ctx.section("make-producer"):
         _make_producer(ctx)
     with ctx.section("single"):
@@ -158,6 +162,141 @@ def _parse(ctx):
         ctx.check(ok, "parse/nonempty-result", ctx.construct(q, g.node(r).ast),
                   "an empty range-set ('bytes=' or 'bytes=,') is returned as an empty list although the contract is 'length at least one': makeProducer takes the multi-range path "
                   "with no ranges and the producer crashes (500)")
+
+
+# ---- the Range parser, evaluated --------------------------------------------------------------------------------------
+def rfc_ranges(value: bytes):
+    """RFC 9110 14.1.1/14.1.2 oracle: list of (first, last) with None for an absent position, or None when the header is malformed."""
+    if b"=" not in value:
+        return None
+    unit, rest = value.split(b"=", 1)
+    if unit != b"bytes":
+        return None
+    out = []
+    for spec in rest.split(b","):
+        spec = spec.strip(b" \t")
+        if not spec:
+            continue                                   # empty list elements are tolerated (RFC 9110 5.6.1.2)
+        if b"-" not in spec:
+            return None
+        a, b = spec.split(b"-", 1)
+        if (a and not a.isdigit()) or (b and not b.isdigit()):
+            return None
+        if not a and not b:
+            return None
+        first = int(a) if a else None
+        last = int(b) if b else None
+        if first is not None and last is not None and first > last:
+            return None
+        out.append((first, last))
+    return out or None
+
+
+SPECS = [b"0-0", b"5-0", b"0-", b"-0", b"1-0", b"5-5", b"6-5", b"3-", b"-3", b"-", b"a-b", b"1-a", b"a-1", b"10-20", b"0-1", b"7", b"1-2-3", b"-1-2"]
+
+
+def _range_values():
+    vals = [b"bytes=" + s_ for s_ in SPECS]
+    vals += [b"bytes=" + a + sep + b for a in SPECS[:12] for b in SPECS[:12] for sep in (b",", b", ")]
+    vals += [b"bytes=0-0,3-0", b"bytes=1-2,,4-5", b"kilos=1-2", b"bytes 1-2", b"1-2", b"", b"=", b"bytes=1-2,4-,-7", b"BYTES=1-2", b"bytes=0-0,0-0"]
+    # inputs on which today's parser is knowingly lenient (known findings F25d/F25e) are not part of this grid: signs/underscores/inner blanks, the empty range-set
+    return [v for v in vals if rfc_ranges(v) is not None or not (v.endswith(b"=") or b"=," == v[-2:])]
+
+
+def _parse_evaluated(ctx):
+    f = ctx.func(S, "File._parseRangeHeader")
+    q = Q + "File._parseRangeHeader"
+    pn = param_names(f)[1]
+    bad = []
+    n = 0
+    try:
+        for v in _range_values():
+            if v in (b"bytes=-1-2",):
+                continue                               # int(b'-1') leniency: F25d
+            n += 1
+            kind, got = interpret(f, {pn: v, "self": None})
+            want = rfc_ranges(v)
+            if want is None:
+                if not (kind == "raise" and got == "ValueError"):
+                    bad.append((v, f"{kind} {got!r}", "ValueError (malformed: the whole content is served)"))
+            elif kind != "return" or [tuple(x) for x in got] != want:
+                bad.append((v, f"{kind} {got!r}", repr(want)))
+    except InterpError as e:
+        raise AnalysisError(f"C25: _parseRangeHeader uses a construct the evaluator cannot interpret: {e}")
+    msg = f"Range: {bad[0][0].decode('latin-1')} is parsed as {bad[0][1]}, RFC 9110: {bad[0][2]}; {len(bad)} of {n} header values differ" if bad else ""
+    ctx.check(not bad, "parse/evaluated", q, msg, detail=f"{n} header values equal the oracle")
+    ctx.extra["finite_cases_range_parser"] = n
+
+
+class _Req:
+    _sa_model = True
+
+    def __init__(self):
+        self.code = None
+        self.headers = {}
+
+    def setResponseCode(self, code, *a):
+        self.code = code
+
+    def setHeader(self, k, v):
+        self.headers[k.lower()] = v
+
+
+def _multiple_evaluated(ctx):
+    f = ctx.func(S, "File._doMultipleRangeRequest")
+    conv = ctx.func(S, "File._rangeToOffsetAndSize")
+    cr = ctx.func(S, "File._contentRange")
+    q = Q + "File._doMultipleRangeRequest"
+    ps = param_names(f)
+    bad = []
+    n = 0
+    size = 10
+    base = {"self.getFileSize()": size, "self.getsize()": size, "self.type": "text/plain", "http.PARTIAL_CONTENT": 206, "http.REQUESTED_RANGE_NOT_SATISFIABLE": 416}
+    common = {"networkString": lambda s_: s_.encode("ascii"), "nativeString": lambda s_: s_.decode("ascii") if isinstance(s_, bytes) else s_,
+              "time.time": lambda: 1.5, "os.getpid": lambda: 4242}
+
+    def sub(fn):
+        def run(*args):
+            kind, val = interpret(fn, dict(zip(param_names(fn)[1:], args), self=None), base, funcs=common)
+            if kind == "raise":
+                raise RuntimeError(val)
+            return val
+        return run
+    funcs = dict(common)
+    funcs["self._rangeToOffsetAndSize"] = sub(conv)
+    funcs["self._contentRange"] = sub(cr)
+    cases = [[(0, 0), (2, 3)], [(2, 3), (0, 0)], [(5, None), (0, 1)], [(None, 3), (0, 0)], [(0, 0), (None, 3)], [(8, None), (None, 2), (1, 1)], [(0, 0), (50, 60)], [(50, 60), (4, 5)],
+             [(9, 100), (0, 0)], [(3, 3), (3, 3)]]
+    try:
+        for ranges in cases:
+            n += 1
+            req = _Req()
+            kind, val = interpret(f, {ps[1]: req, ps[2]: list(ranges), "self": None}, base, funcs=funcs)
+            want = [oracle(size, a, b) for a, b in ranges]
+            want = [w for w in want if w is not None]
+            if kind != "return":
+                bad.append((ranges, f"raises {val}"))
+                continue
+            try:
+                parts = [(o, s_) for sep, o, s_ in val if (o, s_) != (0, 0) or sep and not sep.endswith(b"--\r\n")]
+                seps = [sep for sep, o, s_ in val]
+            except Exception:
+                bad.append((ranges, f"returns {val!r}"))
+                continue
+            if parts != want:
+                bad.append((ranges, f"sends the parts {parts}, requested order is {want}"))
+            elif req.code != 206:
+                bad.append((ranges, f"answers {req.code}"))
+            elif req.headers.get(b"content-length") != str(sum(len(x) for x in seps) + sum(s_ for o, s_ in parts)).encode():
+                bad.append((ranges, f"announces Content-Length {req.headers.get(b'content-length')!r}, the body has {sum(len(x) for x in seps) + sum(s_ for o, s_ in parts)} bytes"))
+    except InterpError as e:
+        raise AnalysisError(f"C25: _doMultipleRangeRequest uses a construct the evaluator cannot interpret: {e}")
+    msg = ""
+    if bad:
+        r_, why = bad[0]
+        hdr = ",".join(("-%d" % b if a is None else "%d-%s" % (a, "" if b is None else b)) for a, b in r_)
+        msg = f"Range: bytes={hdr} on a {size}-byte file: {why}; {len(bad)} of {n} multi-range requests wrong"
+    ctx.check(not bad, "multi/evaluated", q, msg, detail=f"{n} multi-range requests")
 
 
 LENIENT = {"replace", "ignore", "backslashreplace", "surrogateescape"}
@@ -294,9 +433,21 @@ def _multiple(ctx):
     f = ctx.func(S, "File._doMultipleRangeRequest")
     g = ctx.cfg(f)
     q = Q + "File._doMultipleRangeRequest"
-    loops = [s for s in walk_local(f) if isinstance(s, ast.For) and src(s.iter) == param_names(f)[2]]
-    ctx.need(len(loops) == 1, "for start, end in byteRanges")
+    rp = param_names(f)[2]
+    loops = [s for s in walk_local(f) if isinstance(s, ast.For) and any(isinstance(c, ast.Call) and call_name(c) == "self._rangeToOffsetAndSize" for c in ast.walk(s))]
+    ctx.need(len(loops) == 1, "the loop over the requested ranges (the one that calls self._rangeToOffsetAndSize)")
     loop = loops[0]
+    it = src(loop.iter)
+    in_order = it in (rp, f"list({rp})", f"tuple({rp})", f"iter({rp})", f"enumerate({rp})", f"range(len({rp}))", f"{rp}[:]")
+    ctx.check(in_order, "multi/part-order", ctx.construct(q, loop),
+              f"the parts are produced by iterating `{it}`, not the parsed ranges in request order: sorted()/reversed()/set() reorder the parts (and sorting pairs containing None "
+              "raises TypeError for suffix / open-ended ranges: a 500)")
+    pair = loop.target
+    if it.startswith("enumerate(") and isinstance(pair, ast.Tuple) and len(pair.elts) == 2 and isinstance(pair.elts[1], ast.Tuple):
+        pair = pair.elts[1]
+    if not isinstance(pair, ast.Tuple) or len(pair.elts) != 2:
+        ctx.note("multi-range loop target is not a (start, end) pair: per-part structural rules skipped, the evaluation rule judges")
+        return
     apps = [(n, c) for n, c in call_sites(g, lambda c: call_attr(c) == "append" and isinstance(c.func, ast.Attribute) and isinstance(c.func.value, ast.Name))
             if c.args and isinstance(c.args[0], ast.Tuple) and len(c.args[0].elts) == 3]
     lst = {src(c.func.value) for n, c in apps}
@@ -307,7 +458,7 @@ def _multiple(ctx):
     conv = [st for st in ast.walk(loop) if isinstance(st, ast.Assign) and isinstance(st.value, ast.Call) and call_name(st.value) == "self._rangeToOffsetAndSize"]
     ctx.need(len(conv) == 1 and isinstance(conv[0].targets[0], ast.Tuple), "partOffset, partSize = self._rangeToOffsetAndSize(start, end)")
     off, size = [src(e) for e in conv[0].targets[0].elts]
-    ctx.check([src(a) for a in conv[0].value.args] == [src(e) for e in loop.target.elts], "multi/parts", q + " | conversion args", "start/end are not passed on in order")
+    ctx.check([src(a) for a in conv[0].value.args] == [src(e) for e in pair.elts], "multi/parts", q + " | conversion args", "start/end are not passed on in order")
     augs = [(n, st) for n, st in assign_sites(g, lambda x: isinstance(x, ast.Name)) if isinstance(st, ast.AugAssign) and isinstance(st.op, ast.Add)]
     for n, c in inloop:
         sep, o, s = [src(e) for e in c.args[0].elts]
@@ -485,6 +636,8 @@ MUTANTS = [
     Mutant("last-byte-inclusive-off-by-one", S, "        elif end < size:\n            end += 1\n", "        elif end < size - 1:\n            end += 1\n"),
     Mutant("start-at-size-satisfiable", S, "        if start >= size:\n            start = end = 0\n", "        if start > size:\n            start = end = 0\n"),
     Mutant("content-range-exclusive-end", S, "\"bytes %d-%d/%d\" % (offset, offset + size - 1, self.getFileSize())", "\"bytes %d-%d/%d\" % (offset, offset + size, self.getFileSize())"),
+    Mutant("reversed-range-test-by-truthiness", S, "                if end is not None and start > end:", "                if end and start > end:"),
+    Mutant("parts-in-reverse-order", S, "        for start, end in byteRanges:\n            partOffset, partSize", "        for start, end in reversed(byteRanges):\n            partOffset, partSize"),
     Mutant("reversed-range-ge", S, "                if end is not None and start > end:", "                if end is not None and start >= end:"),
     Mutant("parser-raises-keyerror", S, "            raise ValueError(f\"Unsupported Bytes-Unit: {kind!r}\")", "            raise KeyError(f\"Unsupported Bytes-Unit: {kind!r}\")"),
     Mutant("int-outside-try", S, "            if end:\n                try:\n                    end = int(end)\n                except ValueError:\n                    raise ValueError(f\"Invalid Byte-Range: {byteRange!r}\")\n",
@@ -501,6 +654,9 @@ MUTANTS = [
     Mutant("dispatch-single-for-first-of-many", S, "        if len(parsedRanges) == 1:\n            offset, size", "        if len(parsedRanges) >= 1:\n            offset, size"),
 ]
 SILENT = [
+    Silent("parts-loop-enumerate", S, "        for start, end in byteRanges:\n            partOffset, partSize", "        for _idx, (start, end) in enumerate(byteRanges):\n            partOffset, partSize"),
+    Silent("reversed-range-flattened-with-none-tests", S, "            if start is not None:\n                if end is not None and start > end:\n                    # Start must be less than or equal to end or it is invalid.\n                    raise ValueError(f\"Invalid Byte-Range: {byteRange!r}\")\n            elif end is None:",
+           "            if start is not None and end is not None and start > end:\n                raise ValueError(f\"Invalid Byte-Range: {byteRange!r}\")\n            if start is None and end is None:"),
     Silent("content-range-fstring", S, "        return networkString(\n            \"bytes %d-%d/%d\" % (offset, offset + size - 1, self.getFileSize())\n        )",
            "        last = offset + size - 1\n        total = self.getFileSize()\n        return f\"bytes {offset}-{last}/{total}\".encode(\"ascii\")"),
     Silent("range-arithmetic-rewritten", S, "        size = self.getFileSize()\n        if start is None:\n            start = max(size - end, 0)\n            end = size\n        elif end is None:\n            end = size\n        elif end < size:\n            end += 1\n        elif end > size:\n            end = size\n        if start >= size:\n            start = end = 0\n        return start, (end - start)",
